@@ -34,7 +34,11 @@ NDSize DataView::transform_coordinates(const NDSize &cnt, const NDSize &off) con
         return offset;
 
     } else {
-        if (cnt + off > count) {
+        if (off > count) {
+            throw OutOfBounds("Trying to access data outside of range", 0);
+        }
+        // off <= count in every dimension, so the subtraction cannot wrap around
+        if (cnt > count - off) {
             throw OutOfBounds("Trying to access data outside of range", 0);
         }
 
